@@ -234,6 +234,36 @@ func c14Run(kind string, nv *namedValue) (v *pt.Violation, digest string, produc
 	if len(ops) == 0 {
 		return viol(sig("no-operation"), "%s produced no operation", kind), "", 0
 	}
+	// value fidelity: what the origin reads back is the JSON image of what the caller passed
+	if nv != nil {
+		var got interface{}
+		have := true
+		switch kind {
+		case "map.put":
+			got = r0.mp.Get("k")
+		case "list.insert":
+			got, _ = r0.li.Get(1)
+		case "list.update":
+			got, _ = r0.li.Get(0)
+		case "doc.put":
+			if d, _ := r0.doc.GetFromObject("k"); d != nil {
+				got = d.GetValue()
+			}
+		case "doc.arrupdate":
+			a, _ := r0.doc.GetFromObject("arr")
+			if d, _ := a.GetFromArray(0); d != nil {
+				got = d.GetValue()
+			}
+		default:
+			have = false
+		}
+		if have {
+			wantB, err := json.Marshal(val)
+			if err == nil && canonJSON(string(wantB)) != canonJSON(jsonStr(got)) {
+				return viol(sig("value-changed"), "%s value %s (%T): caller passed %s, origin reads back %s", kind, vname, val, clip(string(wantB), 200), clip(jsonStr(got), 200)), "", len(ops)
+			}
+		}
+	}
 	var delivered []*model.Operation
 	for _, m := range ops {
 		var fail string
